@@ -2,6 +2,7 @@ SPECIFICATION Spec
 CONSTANTS U = "quick"
 INVARIANT TypeOK
 INVARIANT PerCell
+INVARIANT AsWritten
 INVARIANT TemplateUntouched
 INVARIANT CellsPartition
 INVARIANT Borders
